@@ -137,3 +137,10 @@ uint32_t ll_isupper(uint32_t c) { return c >= 'A' && c <= 'Z'; }
 uint32_t ll_islower(uint32_t c) { return c >= 'a' && c <= 'z'; }
 uint32_t ll_isprint(uint32_t c) { return c >= 0x20 && c <= 0x7e; }
 void ll_exit(uint32_t code) { LL_TRAP(); }
+/* function-local statics: single-threaded guard protocol (Itanium C++ ABI 3.3.3) */
+uint32_t __cxa_guard_acquire(uint8_t* g) { return *g == 0; }
+void __cxa_guard_release(uint8_t* g) { *g = 1; }
+void __cxa_guard_abort(uint8_t* g) { }
+#ifdef __CPROVER__
+uint32_t __cxa_atexit(uint8_t* f, uint8_t* p, uint8_t* d) { return 0; }
+#endif
